@@ -487,7 +487,11 @@ def prove(ctx):
     from ..translate import psstatus
     m = psstatus.generate(common.REPO, common.LEAN)
     ctx.notes.append(f"translator(psstatus: statuses PsutilProcess treats as alive): {m[1]}")
-    _sched.prove(ctx, MODULES, extra_msgs=[m])
+    # the job-side protocol read from the source (Generated/RunnerSrc.lean, obligations Properties/C10Src.lean) belongs to this property too
+    from ..translate import runsrc
+    _ok, msg, _info = runsrc.generate(common.REPO, common.LEAN)
+    ctx.notes.append(f"translator(runsrc): {msg}")
+    _sched.prove(ctx, MODULES + ["XpmVerif.Properties.C10Src"], extra_msgs=[m])
 
 
 def correspond(ctx):
